@@ -301,6 +301,22 @@ pub fn originals(rng: &mut Rng, k: usize, size: usize) -> Vec<Vec<u8>> {
                     }
                 }
             }
+            4 => {
+                // every whole block zero, structured (see structure_block) or
+                // left random; the tail stays random
+                for c in s.chunks_exact_mut(64) {
+                    match rng.below(3) {
+                        0 => c.fill(0),
+                        1 => {
+                            let mut blk = [0u8; 64];
+                            blk.copy_from_slice(c);
+                            crate::mon_c03::structure_block(rng, &mut blk);
+                            c.copy_from_slice(&blk);
+                        }
+                        _ => {}
+                    }
+                }
+            }
             0 | 1 => {
                 for b in s.iter_mut() {
                     if rng.chance(3, 4) {
